@@ -289,3 +289,32 @@ func PostProcess(s *Script) {
 	}
 	_ = total
 }
+
+// CheckPreludeLemmas runs the stand-alone proof scripts of the lemmas that the prelude states as axioms
+// (specs/prelude_lemmas/*.smt2): each must be unsat on at least one solver and sat on none.
+func CheckPreludeLemmas(dir string, timeoutS int) *Script {
+	out := NewScript()
+	files, _ := filepath.Glob(filepath.Join(dir, "*.smt2"))
+	for _, f := range files {
+		o := &Obligation{Name: "prelude-lemma:" + strings.TrimSuffix(filepath.Base(f), ".smt2"), Func: "prelude", Kind: "prelude-lemma", Expect: "unsat",
+			Text: "lemma stated as an axiom in the SMT prelude, proved stand-alone from the defining axioms (" + f + ")"}
+		o.Status = "unknown"
+		var detail []string
+		for _, cfg := range Solvers {
+			r := runSolver(context.Background(), cfg, f, timeoutS)
+			detail = append(detail, fmt.Sprintf("%s: %s (%.2fs)", r.solver, r.verdict, r.secs))
+			o.TimeS += r.secs
+			if r.verdict == "sat" {
+				o.Status = "failed"
+				o.Model = r.out
+				break
+			}
+			if r.verdict == "unsat" && o.Status != "discharged" {
+				o.Status, o.Solver = "discharged", r.solver
+			}
+		}
+		o.Detail = strings.Join(detail, "; ")
+		out.Obls = append(out.Obls, o)
+	}
+	return out
+}
